@@ -11,6 +11,8 @@ import c01
 import c02
 import c07
 import c03
+import c06
+import c08
 
 FT = [("f32", 4, 8, 23), ("f64", 8, 11, 52)]
 MATH = ["exp", "exp2", "exp10", "expm1", "log", "log2", "log10", "log1p", "sin", "cos", "tan", "asin", "acos", "atan", "sinh", "cosh", "tanh",
@@ -151,6 +153,9 @@ def body(ctx):
         fp = [l for l in xl if l.split()[2] in ("f32", "f64") and l.split()[0] not in ("cmp", "sel")]
         ip = [l for l in ip if l.split()[0] not in ("cmp", "sel")]
         cp = [l for l in xl if l.split()[0] in ("cmp", "sel")]
+        vp = [l for l in xl if l.split()[0] == "cv"]
+        ip = [l for l in ip if l.split()[0] != "cv"]
+        fp = [l for l in fp if l.split()[0] != "cv"]
     else:
         # (operations with a recorded deviation of C02/C07 - signed rotates, ldexp, frexp - are wrong in a lane-independent way: not C13's subject)
         skip = lambda l: (l.split()[1] in ("ldexp", "frexp")) or (l.split()[1].startswith("rot") and l.split()[2][0] == "i")
@@ -159,12 +164,18 @@ def body(ctx):
         # lane-wise comparisons and select (C03): a predicate lane must not depend on its neighbours either (an emulated 16-bit
         # compare built from 32-bit compares, a 64-bit compare built from 32-bit halves, ...)
         cp = [l for l in c03.make_plan(ctx) if l.split()[0] in ("cmp", "sel")][:: ctx.q(4, 2)]
+        # rounding functions (C08) join the float slice; conversions (C06: the magic-number emulations blend 16-bit groups of neighbouring lanes)
+        fp += c08.make_plan(ctx)[:: ctx.q(3, 2)]
+        vp = c06.make_plan(ctx)[:: ctx.q(4, 2)]
     if ip:
         ev, ip = lanes.record(ctx, "int", ip, "c13int")
         lanes.validate(ctx, "T_Int.tla", ev, "c13int", plan_lines=ip)
     if fp:
         ev, fp = lanes.record(ctx, "float", fp, "c13flt")
         lanes.validate(ctx, "T_Float.tla", ev, "c13flt", plan_lines=fp)
+    if vp:
+        ev, vp = lanes.record(ctx, "cvt", vp, "c13cvt")
+        lanes.validate(ctx, "T_Cvt.tla", c06.split_to(ev), "c13cvt", plan_lines=vp)
     if cp:
         ev, cp = lanes.record(ctx, "bool", cp, "c13cmp")
         lanes.validate(ctx, "T_Bool.tla", c03.split_src(ev), "c13cmp", plan_lines=cp)
